@@ -80,7 +80,20 @@ fn check_f32(ctx: &mut Ctx, x: f32) {
     }
     match sonic_rs::from_str::<f32>(&s) {
         Ok(y) if y.to_bits() == x.to_bits() => {}
-        Ok(y) => ctx.fail("f32-roundtrip", format!("{:e} ({:#x}) -> {:?} -> {:e} ({:#x})", x, x.to_bits(), s, y, y.to_bits())),
+        Ok(y) => {
+            // F36: the text is the correct shortest f32 spelling and the reader did exactly what C07
+            // prescribes for f32 targets (nearest f64, narrowed once) - the two roundings together
+            // land on the neighbouring f32. Anything else is a different defect.
+            let text_is_right = s.parse::<f32>().map(|z| z.to_bits()) == Ok(x.to_bits());
+            let narrowed_once = s.parse::<f64>().map(|d| (d as f32).to_bits()) == Ok(y.to_bits());
+            let one_ulp = (y.to_bits() as i64 - x.to_bits() as i64).abs() == 1;
+            if text_is_right && narrowed_once && one_ulp {
+                ctx.class("f32:double-rounding-case");
+                ctx.fail("f32-roundtrip one-ulp-by-documented-f64-narrowing-of-a-correct-shortest-text", format!("{:e} ({:#x}) -> {:?} -> {:e} ({:#x})", x, x.to_bits(), s, y, y.to_bits()));
+            } else {
+                ctx.fail("f32-roundtrip", format!("{:e} ({:#x}) -> {:?} -> {:e} ({:#x})", x, x.to_bits(), s, y, y.to_bits()));
+            }
+        }
         Err(e) => ctx.fail("f32-roundtrip-rejects", format!("{:e} -> {:?} -> {}", x, s, e)),
     }
 }
@@ -218,6 +231,10 @@ impl Check for C08 {
     }
     fn generate(&self, g: &GenParams, emit: &mut dyn FnMut(Case)) {
         let mut idx = 0u64;
+        if g.shard == 0 && g.build == "native-rel" {
+            // the recorded f32 double-rounding case (finding F36) and its neighbours
+            emit(Case::with("f32-probe", vec![], &[0x15ae43fd]));
+        }
         // all u8/i8/u16/i16
         for blk in 0..16i64 {
             if g.mine(idx) {
@@ -275,6 +292,14 @@ impl Check for C08 {
                 }
                 ctx.class("ints:all-8-16-bit");
                 ctx.sample("small-ints");
+            }
+            "f32-probe" => {
+                let b = c.p(0) as u32;
+                for d in 0..5u32 {
+                    check_f32(ctx, f32::from_bits(b - 2 + d));
+                }
+                ctx.nontrivial();
+                ctx.sample("f32-probe");
             }
             "f32-block" => {
                 let b = c.p(0) as u32;
